@@ -8,6 +8,7 @@ Local Arguments N.add : simpl never.
 Local Arguments N.min : simpl never.
 Local Arguments Z.leb : simpl never.
 Local Arguments Z.ltb : simpl never.
+Local Arguments policy_says : simpl never.
 Open Scope nat_scope.
 
 (* ---- the clamps are the code's ------------------------------------------------- *)
@@ -99,12 +100,14 @@ Section MachineProofs.
   Variable origin : nat -> U -> answer U.
   Variable maxR : nat.
   Variable rb : body -> result.
+  Variable prev : option (nat -> pverdict).
 
   Notation accepts := (accepts U validator).
   Notation val_event := (val_event U validator).
-  Notation follow := (follow U validator origin rb).
-  Notation attempts := (attempts U validator origin maxR rb).
-  Notation resolve := (resolve U validator origin maxR rb).
+  Notation follow := (follow U validator origin rb prev).
+  Notation psays := (policy_says prev).
+  Notation attempts := (attempts U validator origin maxR rb prev).
+  Notation resolve := (resolve U validator origin maxR rb prev).
 
   Definition is_send (e : event U) : bool := match e with EvSend _ _ => true | _ => false end.
   Definition is_first (e : event U) : bool := match e with EvSend true _ => true | _ => false end.
@@ -150,7 +153,8 @@ Section MachineProofs.
   Proof.
     induction left as [|l IH]; intros first u s HV Hs Ha; cbn;
       destruct (origin att u) as [[v|]|n|b|  | ]; cbn; auto.
-    destruct (accepts v) eqn:Av.
+    destruct (accepts v) eqn:Av; [destruct (psays (S l)) as [pe|]|].
+    - cbn. repeat split; auto. unfold C31.val_event. destruct validator; cbn; auto.
     - specialize (IH false v (fun x => x = v \/ s x) HV (or_introl eq_refl) Av).
       destruct (follow att l false v) as [t r]; cbn in *. repeat split; auto.
       apply val_event_ordered; [exact HV|]. exact IH.
@@ -163,7 +167,9 @@ Section MachineProofs.
   Proof.
     induction left as [|l IH]; intros first u Ha f w; cbn;
       destruct (origin att u) as [[v|]|n|b|  | ]; cbn; try (intros [E|[]]; inversion E; subst; exact Ha); try tauto.
-    destruct (accepts v) eqn:Av.
+    destruct (accepts v) eqn:Av; [destruct (psays (S l)) as [pe|]|].
+    - cbn. intros [E|H]; [inversion E; subst; exact Ha|].
+      unfold C31.val_event in H. destruct validator; cbn in H; [destruct H as [H|[]]; discriminate | tauto].
     - specialize (IH false v Av f w). destruct (follow att l false v) as [t r]; cbn in *.
       intros [E|H]; [inversion E; subst; exact Ha|]. apply in_app_or in H. destruct H as [H|H]; [|auto].
       unfold C31.val_event in H. destruct validator; cbn in H; [destruct H as [H|[]]; discriminate | tauto].
@@ -178,7 +184,8 @@ Section MachineProofs.
   Proof.
     unfold sends. induction left as [|l IH]; intros first u; cbn;
       destruct (origin att u) as [[v|]|n|b|  | ]; cbn; try lia.
-    destruct (accepts v).
+    destruct (accepts v); [destruct (psays (S l)) as [pe|]|].
+    - cbn. destruct (val_event_sends v) as [-> _]. cbn. lia.
     - specialize (IH false v). destruct (follow att l false v) as [t r]; cbn in *.
       rewrite filter_app, app_length. destruct (val_event_sends v) as [-> _]. cbn. lia.
     - cbn. destruct (val_event_sends v) as [-> _]. cbn. lia.
@@ -189,7 +196,8 @@ Section MachineProofs.
   Proof.
     unfold firsts. induction left as [|l IH]; intros first u; cbn;
       destruct (origin att u) as [[v|]|n|b|  | ]; cbn; try (destruct first; cbn; lia).
-    destruct (accepts v).
+    destruct (accepts v); [destruct (psays (S l)) as [pe|]|].
+    - destruct (val_event_sends v) as [_ E]. destruct first; cbn; rewrite E; cbn; lia.
     - specialize (IH false v). destruct (follow att l false v) as [t r]; cbn in *.
       destruct (val_event_sends v) as [_ E].
       destruct first; cbn in *; rewrite filter_app, app_length, E; cbn; lia.
@@ -204,7 +212,8 @@ Section MachineProofs.
     induction left as [|l IH]; intros first u n; cbn;
       destruct (origin att u) as [[v|]|m|b|  | ] eqn:O; cbn; try discriminate;
       try (intro H; exists first, u, b; cbn; auto).
-    destruct (accepts v).
+    destruct (accepts v); [destruct (psays (S l)) as [pe|]|].
+    - cbn. discriminate.
     - specialize (IH false v n). destruct (follow att l false v) as [t r]; cbn in *.
       intro H. destruct (IH H) as (f & w & b & I1 & I2 & I3). exists f, w, b. repeat split; auto.
       right. apply in_or_app. now right.
@@ -343,12 +352,14 @@ Section TraceOk.
   Variable origin : nat -> nat -> answer nat.
   Variable maxR : nat.
   Variable rb : body -> result.
+  Variable prev : option (nat -> pverdict).
   Let validator : option (nat -> bool) := if has_val then Some acc else None.
   Hypothesis acc_all : has_val = false -> forall u, acc u = true.
 
   Notation tok := (trace_ok acc has_val maxR).
-  Notation follow := (follow nat validator origin rb).
-  Notation attempts := (attempts nat validator origin maxR rb).
+  Notation follow := (follow nat validator origin rb prev).
+  Notation psays := (policy_says prev).
+  Notation attempts := (attempts nat validator origin maxR rb prev).
 
   Lemma accepts_acc u : accepts nat validator u = acc u.
   Proof. unfold accepts, validator. destruct has_val eqn:H; [reflexivity | symmetry; now apply acc_all]. Qed.
@@ -402,7 +413,15 @@ Section TraceOk.
       try (apply SEND; [exact Ha | exact Hs | destruct first; lia |];
            eapply tok_mono; [| | | apply (Hrest s); auto]; [auto | lia | lia]);
       try (eapply tok_mono; [| | | apply (Hrest s); auto]; [auto | lia | destruct first; lia]).
-    rewrite accepts_acc. destruct (acc v) eqn:Av.
+    rewrite accepts_acc. destruct (acc v) eqn:Av; [destruct (psays (S l)) as [pe|]|].
+    - cbn [fst]. change ((EvSend first u :: val_event nat validator v) ++ rest)
+        with (EvSend first u :: val_event nat validator v ++ rest).
+      apply SEND; [exact Ha | exact Hs | destruct first; lia |]. apply tok_val.
+      eapply tok_mono; [| | | apply (Hrest (if has_val then v :: s else s))].
+      + auto.
+      + lia.
+      + lia.
+      + intros x Hx. destruct has_val; [cbn; rewrite Hx; apply orb_true_r | exact Hx].
     - specialize (IH false v (if has_val then v :: s else s) (if first then maxR else hl - 1)
                      (if first then atts - 1 else atts) rest Av).
       destruct (follow att l false v) as [t r]. cbn [fst] in *.
@@ -440,7 +459,7 @@ Section TraceOk.
   Qed.
 
   Lemma resolve_tok n u0 atts :
-    n <= atts -> tok [] 0 atts (fst (fst (resolve nat validator origin maxR rb n u0))) = true.
+    n <= atts -> tok [] 0 atts (fst (fst (resolve nat validator origin maxR rb prev n u0))) = true.
   Proof.
     intro Hn. unfold resolve. rewrite accepts_acc. destruct (acc u0) eqn:Ha.
     - pose proof (attempts_tok n O u0 (if has_val then [u0] else []) 0 atts Hn Ha) as A.
@@ -467,7 +486,8 @@ Section TraceOk.
     induction left as [|l IH]; intros first u n; cbn [C31.follow];
       destruct (origin att u) as [[v|]|m|b|  | ] eqn:O; cbn [fst snd]; try discriminate;
       try (intro H; exists u, b; cbn; auto).
-    destruct (accepts nat validator v).
+    destruct (accepts nat validator v); [destruct (psays (S l)) as [pe|]|].
+    - cbn. discriminate.
     - specialize (IH false v n). destruct (follow att l false v) as [t r]. cbn [fst snd] in *.
       intro H. destruct (IH H) as (w & b & L & A). exists w, b. split; [|exact A].
       cbn [last_send]. rewrite last_send_val, L. reflexivity.
@@ -490,8 +510,8 @@ Section TraceOk.
   Qed.
 
   Lemma resolve_last n u0 m :
-    snd (fst (resolve nat validator origin maxR rb n u0)) = ROk m ->
-    exists a w b, a < n /\ last_send (fst (fst (resolve nat validator origin maxR rb n u0))) = Some w
+    snd (fst (resolve nat validator origin maxR rb prev n u0)) = ROk m ->
+    exists a w b, a < n /\ last_send (fst (fst (resolve nat validator origin maxR rb prev n u0))) = Some w
                   /\ origin a w = ABody b /\ rb b = ROk m.
   Proof.
     unfold resolve. destruct (accepts nat validator u0); [|cbn; discriminate].
@@ -553,7 +573,8 @@ Proof.
   assert (G3 : g_redirects g = f_redirects f) by reflexivity.
   assert (G4 : g_maxfetch g = f_maxfetch f) by reflexivity.
   assert (G5 : g_maxdecomp g = f_maxdecomp f) by reflexivity.
-  rewrite G1, G2, G3, G4, G5.
+  assert (G6 : g_policy g = f_policy f) by reflexivity.
+  rewrite G1, G2, G3, G4, G5, G6.
   set (maxR := Z.to_nat (max_redirects (f_redirects f))).
   set (maxF := Z.to_N (max_fetch (f_maxfetch f))).
   set (maxD := Z.to_N (max_decomp (f_maxdecomp f))).
@@ -561,11 +582,11 @@ Proof.
   rewrite site_validator_shape.
   assert (AA : has_validator (f_vkind f) = false -> forall u, site_accepts (f_vkind f) site u = true).
   { destruct (f_vkind f); cbn; intros H u; [reflexivity | discriminate | discriminate]. }
-  pose proof (resolve_tok (site_accepts (f_vkind f) site) (has_validator (f_vkind f)) (site_origin site) maxR (read_body maxF maxD) AA
+  pose proof (resolve_tok (site_accepts (f_vkind f) site) (has_validator (f_vkind f)) (site_origin site) maxR (read_body maxF maxD) (cpolicy_fn (f_policy f) maxR) AA
                 (eff_attempts (f_retries f)) O (eff_attempts (f_retries f)) (le_n _)) as T.
-  pose proof (resolve_last (site_accepts (f_vkind f) site) (has_validator (f_vkind f)) (site_origin site) maxR (read_body maxF maxD) AA
+  pose proof (resolve_last (site_accepts (f_vkind f) site) (has_validator (f_vkind f)) (site_origin site) maxR (read_body maxF maxD) (cpolicy_fn (f_policy f) maxR) AA
                 (eff_attempts (f_retries f)) O) as L. cbv zeta in L.
-  destruct (resolve nat _ (site_origin site) maxR (read_body maxF maxD) (eff_attempts (f_retries f)) O) as [[t r] k].
+  destruct (resolve nat _ (site_origin site) maxR (read_body maxF maxD) (cpolicy_fn (f_policy f) maxR) (eff_attempts (f_retries f)) O) as [[t r] k].
   cbn [fst snd] in T, L. cbn [o_trace o_result o_text o_text2].
   rewrite T. cbn [andb].
   replace (eff_attempts (f_retries f) <=? 3) with true by (pose proof (eff_attempts_bound (f_retries f)); symmetry; apply Nat.leb_le; lia).
@@ -603,13 +624,13 @@ Qed.
 Definition same_public_url (s s' : site_url) : Prop :=
   pub_of (s_parts s) = pub_of (s_parts s') /\ s_verdict s = s_verdict s' /\ s_answers s = s_answers s'.
 Definition same_public (f f' : fetch_in) : Prop :=
-  f_vkind f = f_vkind f' /\ f_retries f = f_retries f' /\ f_redirects f = f_redirects f'
+  f_vkind f = f_vkind f' /\ f_policy f = f_policy f' /\ f_retries f = f_retries f' /\ f_redirects f = f_redirects f'
   /\ f_maxfetch f = f_maxfetch f' /\ f_maxdecomp f = f_maxdecomp f'
   /\ Forall2 same_public_url (f_site f) (f_site f').
 
 Lemma same_public_view f f' : same_public f f' -> view f = view f'.
 Proof.
-  intros (A & B & C & D & E & F). unfold view. rewrite A, B, C, D, E. f_equal.
+  intros (A & Pol & B & C & D & E & F). unfold view. rewrite A, Pol, B, C, D, E. f_equal.
   induction F as [|s s' l l' (P & V & W) _ IH]; [reflexivity|]. cbn. rewrite IH. f_equal.
   unfold view_url. now rewrite P, V, W.
 Qed.
@@ -623,29 +644,29 @@ Proof. now intros ->. Qed.
 (* the error view of a fetch is the redacted location URL or nothing *)
 Lemma error_text_shape_l g : o_text (run g) = red0 (g_site g) \/ o_text (run g) = [].
 Proof.
-  unfold run, run_with. destruct (resolve nat _ _ _ _ _ _) as [[t r] k]. cbn [o_text].
+  unfold run, run_with. destruct (resolve nat _ _ _ _ _ _ _) as [[t r] k]. cbn [o_text].
   destruct (match r with ROk _ => false | RErr e => _ end); auto.
 Qed.
 
 (* ---- statements as collected in Props/C31.v ----------------------------------------------------- *)
-Lemma attempts_l : forall U validator origin maxR rb c u0,
-  let run := resolve U validator origin maxR rb (eff_attempts c) u0 in
+Lemma attempts_l : forall U validator origin maxR rb prev c u0,
+  let run := resolve U validator origin maxR rb prev (eff_attempts c) u0 in
   snd run <= eff_attempts c
   /\ firsts U (fst (fst run)) <= snd run
   /\ eff_attempts c <= 3
   /\ ((1 <= c)%Z -> eff_attempts c = Nat.min (Z.to_nat c + 1) 3)
   /\ ((c <= 0)%Z -> eff_attempts c = Z.to_nat (c31_default_retries + 1)).
 Proof.
-  intros. destruct (resolve_counts U validator origin maxR rb (eff_attempts c) u0) as (A & B & _).
+  intros. destruct (resolve_counts U validator origin maxR rb prev (eff_attempts c) u0) as (A & B & _).
   repeat split; auto.
   - pose proof (eff_attempts_bound c). lia.
   - apply eff_attempts_configured.
   - apply eff_attempts_unset.
 Qed.
 
-Lemma hops_l : forall U validator origin maxR rb,
-  (forall att first u, sends U (fst (follow U validator origin rb att maxR first u)) <= S maxR)
-  /\ (forall n u0, let run := resolve U validator origin maxR rb n u0 in
+Lemma hops_l : forall U validator origin maxR rb prev,
+  (forall att first u, sends U (fst (follow U validator origin rb prev att maxR first u)) <= S maxR)
+  /\ (forall n u0, let run := resolve U validator origin maxR rb prev n u0 in
                    sends U (fst (fst run)) <= snd run * S maxR).
 Proof.
   intros. split.
@@ -653,32 +674,32 @@ Proof.
   - intros. apply resolve_counts.
 Qed.
 
-Lemma never_rejected_l : forall U validator origin maxR rb n u0 first w,
-  In (EvSend first w) (fst (fst (resolve U validator origin maxR rb n u0))) ->
+Lemma never_rejected_l : forall U validator origin maxR rb prev n u0 first w,
+  In (EvSend first w) (fst (fst (resolve U validator origin maxR rb prev n u0))) ->
   accepts U validator w = true.
 Proof. intros. eapply resolve_accepted; eauto. Qed.
 
-Lemma validated_before_l : forall U (v : U -> bool) origin maxR rb n u0,
-  ordered U (Some v) (fun _ => False) (fst (fst (resolve U (Some v) origin maxR rb n u0))).
+Lemma validated_before_l : forall U (v : U -> bool) origin maxR rb prev n u0,
+  ordered U (Some v) (fun _ => False) (fst (fst (resolve U (Some v) origin maxR rb prev n u0))).
 Proof. intros. apply resolve_ordered. discriminate. Qed.
 
-Lemma rejected_location_l : forall U validator origin maxR rb n u0,
+Lemma rejected_location_l : forall U validator origin maxR rb prev n u0,
   accepts U validator u0 = false ->
-  sends U (fst (fst (resolve U validator origin maxR rb n u0))) = 0
-  /\ snd (fst (resolve U validator origin maxR rb n u0)) = RErr EInitRejected.
+  sends U (fst (fst (resolve U validator origin maxR rb prev n u0))) = 0
+  /\ snd (fst (resolve U validator origin maxR rb prev n u0)) = RErr EInitRejected.
 Proof. intros. now apply resolve_rejected_sends_nothing. Qed.
 
-Lemma success_within_caps_l : forall U validator origin maxR maxF maxD n u0 m,
-  snd (fst (resolve U validator origin maxR (read_body maxF maxD) n u0)) = ROk m ->
+Lemma success_within_caps_l : forall U validator origin maxR maxF maxD prev n u0 m,
+  snd (fst (resolve U validator origin maxR (read_body maxF maxD) prev n u0)) = ROk m ->
   exists att first w b,
-    In (EvSend first w) (fst (fst (resolve U validator origin maxR (read_body maxF maxD) n u0)))
+    In (EvSend first w) (fst (fst (resolve U validator origin maxR (read_body maxF maxD) prev n u0)))
     /\ origin att w = ABody b /\ read_body maxF maxD b = ROk m
     /\ (b_wire b <= maxF)%N /\ b_trunc b = None
     /\ (b_enc b <> EncId -> b_dec b = Some m /\ (m <= maxD)%N)
     /\ (b_enc b = EncId -> m = b_wire b).
 Proof.
-  intros U validator origin maxR maxF maxD n u0 m H.
-  destruct (resolve_ok U validator origin maxR (read_body maxF maxD) n u0 m H) as (a & f & w & b & I1 & I2 & I3).
+  intros U validator origin maxR maxF maxD prev n u0 m H.
+  destruct (resolve_ok U validator origin maxR (read_body maxF maxD) prev n u0 m H) as (a & f & w & b & I1 & I2 & I3).
   exists a, f, w, b. pose proof (read_body_ok maxF maxD b m I3) as (T & Wl & Zs & Gz & Id).
   repeat split; auto; try (now apply (result_is_decoded_l maxF maxD b m)).
 Qed.
@@ -687,13 +708,13 @@ Definition plain_parts (path : bytes) : parts :=
   {| p_valid := true; p_scheme := str "https"; p_opaque := []; p_host := str "origin.example";
      p_path := path; p_omit := false; p_user := []; p_pass := []; p_query := []; p_frag := [] |}.
 Definition gzip_decoded_witness : input :=
-  IFetch {| f_vkind := VScript; f_retries := 1; f_redirects := 3; f_maxfetch := 1048576; f_maxdecomp := 599;
+  IFetch {| f_vkind := VScript; f_policy := CPNone; f_retries := 1; f_redirects := 3; f_maxfetch := 1048576; f_maxdecomp := 599;
             f_site := [ {| s_parts := plain_parts (str "/u0/x"); s_verdict := VAccept;
                            s_answers := [ABody {| b_declared := Some 474%N; b_wire := 474%N; b_trunc := None; b_enc := EncGzip;
                                                   b_dec := Some 600%N; b_win := 0%N |}] |} ];
             f_secrets2 := [] |}.
 Definition gzip_wire_witness : input :=
-  IFetch {| f_vkind := VHttps; f_retries := 1; f_redirects := 3; f_maxfetch := 610; f_maxdecomp := 1048576;
+  IFetch {| f_vkind := VHttps; f_policy := CPNone; f_retries := 1; f_redirects := 3; f_maxfetch := 610; f_maxdecomp := 1048576;
             f_site := [ {| s_parts := plain_parts (str "/u0/x"); s_verdict := VAccept;
                            s_answers := [ABody {| b_declared := Some 623%N; b_wire := 623%N; b_trunc := None; b_enc := EncGzip;
                                                   b_dec := Some 600%N; b_win := 0%N |}] |} ];
